@@ -48,7 +48,7 @@ def t_two_sided(t, df):
 @st.composite
 def case_st(draw):
     sc = draw(scen.scenario_st(SHAPES, measure="none", max_n=30, min_n=4, min_valid=2,
-                               skew=False, weight_kinds=("none", "int", "dyadic", "dyadic")))
+                               skew=False, weight_kinds=("none", "int", "dyadic", "tenths")))
     sc["query"]["squared"] = draw(st.booleans())
     tx, inforce = draw(xforms.slice_insertions_st(sc, where="transforms", max_ins=3,
                                                   allow_malformed=False, allow_diff=True))
